@@ -115,6 +115,11 @@ class View:
                 s.sleeps = []
                 s.classifies = []
                 s.obj = rec.objs.get(i0)
+                if self.no_retry and k == "exc" and s.obj is not None:
+                    # no retry component: the policy classifies with default_classifier
+                    from redress import default_classifier
+
+                    s.klass = default_classifier(s.obj).name
                 if s.klass is not None:
                     counts[s.klass] = counts.get(s.klass, 0) + 1
                     s.count_k = counts[s.klass]
